@@ -1,20 +1,34 @@
 //go:build verif
 
 // c11 drives adaptive flow rules of the real code (warm-up and memory-adaptive token calculation with the reject
-// checker) through the public API (flow.LoadRules, api.Entry, system_metric.SetSystemMemoryUsage) under the virtual
-// clock and records every decision.  The traces are validated against spec/WarmUp_Trace.tla and
+// or the throttling checker) through the public API (flow.LoadRules, api.Entry, system_metric.SetSystemMemoryUsage)
+// under the virtual clock and records every decision.  The traces are validated against spec/WarmUp_Trace.tla and
 // spec/MemAdaptive_Trace.tla (property C11).
 //
 // scenario ops (times in ms relative to the start of the scenario):
 //
-//	new   {tr, kind:"warmup", t, tn, td, p, c}        one WarmUp/Reject rule on a fresh resource: Threshold tn/td,
-//	                                                  WarmUpPeriodSec p, WarmUpColdFactor c
-//	new   {tr, kind:"mem", low, high, lw, hw}         one MemoryAdaptive/Reject rule on a fresh resource
+//	new   {tr, kind:"warmup", t, tn, td, p, c [, cb, q]}   one WarmUp rule on a fresh resource: Threshold tn/td,
+//	                                                  WarmUpPeriodSec p, WarmUpColdFactor c; control behaviour cb
+//	                                                  (0 / absent: Reject, 1: Throttling with MaxQueueingTimeMs q)
+//	new   {tr, kind:"mem", low, high, lw, hw [, cb, q]}    one MemoryAdaptive rule on a fresh resource (same cb, q)
 //	tick  {d}                                         clock += d
+//	at    {t}                                         clock = start + t (ms) unless it is already past that
 //	req   {b}                                         one api.Entry(WithBatchCount(b)); an admitted entry is exited at once
 //	burst {n}                                         n single-token requests at the current instant (n req records)
+//	pace  {until, step}                               (throttling warm-up rule) saturating single-token demand until
+//	                                                  start + until ms: one request after the other; a rejected one is
+//	                                                  repeated step ms later, an admitted one has slept (virtual clock) as
+//	                                                  long as the library asked it to
 //	probe {mem, n}                                    clock += 3 s (empty window), SetSystemMemoryUsage(mem), n single-token
 //	                                                  requests at one instant; records how many were admitted
+//	                                                  (throttling rule: saturating demand for one second, one request per
+//	                                                  millisecond; records the requests made and those whose ADMISSION
+//	                                                  time lies inside that second)
+//
+// trace records of a throttling warm-up rule (times in microseconds since the start of the scenario):
+//
+//	preq {t, ok, w}       one request at t; admitted after sleeping w (rounded up), or rejected
+//	prej {n, t0, t1}      n consecutive rejected requests at t0..t1 (pace only; never spans an aligned second)
 //
 // usage: c11 <scenarios.ndjson> <trace.ndjson>
 package main
@@ -34,6 +48,8 @@ type run struct {
 	tr    int64
 	epoch int64
 	name  string
+	kind  string
+	thr   bool // throttling control behaviour
 }
 
 // one request; returns admitted / panicked
@@ -65,7 +81,37 @@ func main() {
 	tr := hx.NewTrace(os.Args[2])
 	defer tr.Close()
 	var r *run
+	us := func() int64 { return (clk.NowNs() - r.epoch*1e6) / 1000 }
+	emitTick := func() { tr.Emit(hx.M{"op": "tick", "t": clk.NowMs() - r.epoch}) }
+	// one single-token request to a throttling rule: admitted, nanoseconds slept, request time (microseconds)
+	paced := func() (ok bool, w int64, t int64) {
+		clk.TakeSleeps()
+		t = us()
+		ok, p := request(r.name, 1)
+		if p {
+			hx.Fatal("trace %d: panic in a throttled request", r.tr)
+		}
+		for _, d := range clk.TakeSleeps() {
+			if d > 0 {
+				w += d
+			}
+		}
+		return ok, w, t
+	}
+	emitPaced := func(ok bool, w int64, t int64) {
+		tr.Emit(hx.M{"op": "preq", "t": t, "ok": ok, "w": (w + 999) / 1000})
+		if w > 0 {
+			emitTick()
+		}
+	}
 	emitReq := func(b int64) {
+		if r.thr {
+			if b != 1 {
+				hx.Fatal("trace %d: throttling scenarios use single-token requests", r.tr)
+			}
+			emitPaced(paced())
+			return
+		}
 		ok, p := request(r.name, uint32(b))
 		rec := hx.M{"op": "req", "b": b, "ok": ok}
 		if p {
@@ -88,17 +134,31 @@ func main() {
 			system_metric.SetSystemMemoryUsage(system_metric.NotRetrievedMemoryValue)
 			var rule *flow.Rule
 			var rec hx.M
-			switch hx.Str(s, "kind") {
+			cb, q := int64(0), int64(0)
+			if _, ok := s["cb"]; ok {
+				cb = hx.Int(s, "cb")
+			}
+			if _, ok := s["q"]; ok {
+				q = hx.Int(s, "q")
+			}
+			behavior := flow.Reject
+			if cb == 1 {
+				behavior = flow.Throttling
+			} else if cb != 0 || q != 0 {
+				hx.Fatal("trace %d: cb must be 0 (reject) or 1 (throttling, with q)", r.tr)
+			}
+			r.kind, r.thr = hx.Str(s, "kind"), cb == 1
+			switch r.kind {
 			case "warmup":
 				tn, td, p, c := hx.Int(s, "tn"), hx.Int(s, "td"), hx.Int(s, "p"), hx.Int(s, "c")
-				rule = &flow.Rule{Resource: r.name, TokenCalculateStrategy: flow.WarmUp, ControlBehavior: flow.Reject,
+				rule = &flow.Rule{Resource: r.name, TokenCalculateStrategy: flow.WarmUp, ControlBehavior: behavior, MaxQueueingTimeMs: uint32(q),
 					Threshold: float64(tn) / float64(td), WarmUpPeriodSec: uint32(p), WarmUpColdFactor: uint32(c)}
-				rec = hx.M{"op": "new", "tr": r.tr, "t": t0, "tn": tn, "td": td, "p": p, "c": c}
+				rec = hx.M{"op": "new", "tr": r.tr, "t": t0, "tn": tn, "td": td, "p": p, "c": c, "cb": cb, "q": q}
 			case "mem":
 				low, high, lw, hw := hx.Int(s, "low"), hx.Int(s, "high"), hx.Int(s, "lw"), hx.Int(s, "hw")
-				rule = &flow.Rule{Resource: r.name, TokenCalculateStrategy: flow.MemoryAdaptive, ControlBehavior: flow.Reject,
+				rule = &flow.Rule{Resource: r.name, TokenCalculateStrategy: flow.MemoryAdaptive, ControlBehavior: behavior, MaxQueueingTimeMs: uint32(q),
 					LowMemUsageThreshold: low, HighMemUsageThreshold: high, MemLowWaterMarkBytes: lw, MemHighWaterMarkBytes: hw}
-				rec = hx.M{"op": "new", "tr": r.tr, "low": low, "high": high, "lw": lw, "hw": hw}
+				rec = hx.M{"op": "new", "tr": r.tr, "low": low, "high": high, "lw": lw, "hw": hw, "cb": cb, "q": q}
 			default:
 				hx.Fatal("unknown kind %q", hx.Str(s, "kind"))
 			}
@@ -111,18 +171,91 @@ func main() {
 			tr.Emit(rec)
 		case "tick":
 			clk.AdvanceMs(hx.Int(s, "d"))
-			tr.Emit(hx.M{"op": "tick", "t": clk.NowMs() - r.epoch})
+			emitTick()
+		case "at":
+			if t := r.epoch + hx.Int(s, "t"); clk.NowMs() < t {
+				clk.SetMs(t)
+			}
+			emitTick()
 		case "req":
 			emitReq(hx.Int(s, "b"))
 		case "burst":
 			for i := int64(0); i < hx.Int(s, "n"); i++ {
 				emitReq(1)
 			}
+		case "pace":
+			if !r.thr || r.kind != "warmup" {
+				hx.Fatal("trace %d: pace needs a throttling warm-up rule", r.tr)
+			}
+			until, step := (r.epoch+hx.Int(s, "until"))*1e6, hx.Int(s, "step")*1e6
+			if step <= 0 {
+				hx.Fatal("trace %d: pace needs a positive step", r.tr)
+			}
+			var n, t0, t1 int64 // rejections not yet written
+			same := 0           // consecutive admissions without any wait
+			flush := func() {
+				if n > 0 {
+					tr.Emit(hx.M{"op": "prej", "n": n, "t0": t0, "t1": t1})
+					n = 0
+				}
+			}
+			for clk.NowNs() < until {
+				ok, w, t := paced()
+				if ok {
+					flush()
+					emitPaced(ok, w, t)
+					// (a rule that admits without ever spacing - NaN threshold - must not hold the clock still for ever)
+					if same++; w > 0 {
+						same = 0
+					} else if same >= 50 {
+						clk.SetNs(until) // (the unlimited admission is on record; more of the same demand adds nothing)
+					}
+					continue
+				}
+				same = 0
+				if n > 0 && t/1e6 != t0/1e6 {
+					flush()
+					emitTick()
+				}
+				if n == 0 {
+					t0 = t
+				}
+				n, t1 = n+1, t
+				if rest := until - clk.NowNs(); rest < step {
+					clk.AdvanceNs(rest)
+				} else {
+					clk.AdvanceNs(step)
+				}
+			}
+			flush()
+			emitTick()
 		case "probe":
 			clk.AdvanceMs(3000)
 			mem, n := hx.Int(s, "mem"), hx.Int(s, "n")
 			system_metric.SetSystemMemoryUsage(mem)
 			k := int64(0)
+			if r.thr {
+				// saturating demand for one second: the admissions are spaced by 1/threshold; count those inside the second
+				n = 0
+				for end := clk.NowNs() + 1e9; clk.NowNs() < end; n++ {
+					at := clk.NowNs()
+					clk.TakeSleeps()
+					ok, _ := request(r.name, 1)
+					for _, d := range clk.TakeSleeps() {
+						if d > 0 {
+							at += d
+						}
+					}
+					if ok && at < end {
+						k++
+					}
+					if !ok || at >= end || n%50 == 49 {
+						clk.AdvanceMs(1)
+					}
+				}
+				tr.Emit(hx.M{"op": "probe", "mem": mem, "n": n, "k": k})
+				break
+			}
 			for i := int64(0); i < n; i++ {
 				if ok, _ := request(r.name, 1); ok {
 					k++
